@@ -114,6 +114,8 @@ structure Env where
   hooks : List HookRef       -- the DESTROY / after_DESTROY hook tasks among them
   calls : Nat := 0           -- call roles triggered at before_CONFIGURE whose await never comes
   pending : Nat              -- calls started and not yet awaited (callsPendingAwait)
+  started : Nat := 0         -- call goroutines started so far
+  cancelled : Nat := 0       -- … cancelled so far (cancelCallsPendingAwait)
   tearing : Bool             -- a TeardownEnvironment hangs inside it (transitionMutex held for ever)
   deriving DecidableEq, Repr, Inhabited
 
@@ -159,8 +161,7 @@ structure State where
   envs : List Env := []
   master : List MTask := []
   killLog : List (TaskId × Option EnvId) := []   -- every KILL call, with the owner of the task at that instant
-  cancelled : List (EnvId × Nat) := []           -- cancelCallsPendingAwait: environment, number of pending calls cancelled
-  started : List (EnvId × Nat) := []             -- calls started at before_CONFIGURE whose await never comes
+  dead : List (EnvId × Nat × Nat) := []          -- deleted environments: calls started / cancelled in their life
   creating : List Pending := []
   used : List EnvId := []                        -- environment ids handed out so far (uid.New is fresh)
   nextTask : TaskId := 1
@@ -276,8 +277,8 @@ def tdTrace (s1 : State) (E : Env) : List TEv :=
   [TEv.release (tdPlain E)] ++ (weightsOf E.hooks).map (fun w => TEv.hooks (tdRun s1 E w)) ++ [TEv.cancel]
 
 /-- cancelCallsPendingAwait. -/
-def tdCancel (s1 : State) (k : EnvId) (E : Env) : State :=
-  setEnv { s1 with cancelled := s1.cancelled ++ [(k, E.pending)] } k (fun X => { X with pending := 0 })
+def tdCancel (s1 : State) (k : EnvId) (_E : Env) : State :=
+  setEnv s1 k (fun X => { X with cancelled := X.cancelled + X.pending, pending := 0 })
 
 /-- TeardownEnvironment after the first release went through: hooks, cancelCallsPendingAwait,
     second release, DONE, delete. `late`: the event loop closes and deletes the
@@ -290,7 +291,8 @@ def tdFinish (s1 : State) (k : EnvId) (E : Env) (late : Bool) (hf : List TaskId)
   let msg := tdMsg s1 E
   let r2 := releaseTasks s2 k msg
   if r2.2 > 0 then (r2.1, .err, tr ++ [.release msg]) else
-  ({ r2.1 with envs := r2.1.envs.filter (fun X => decide (X.id ≠ k)) },
+  ({ r2.1 with envs := r2.1.envs.filter (fun X => decide (X.id ≠ k)),
+               dead := r2.1.dead ++ (r2.1.envs.filter (fun X => decide (X.id = k))).map (fun X => (X.id, X.started, X.cancelled)) },
    if tdHookErr s1 E hf then .doneErr else .ok, tr ++ [.release msg])
 
 /-- environment.Manager.TeardownEnvironment. `hf`: hook tasks that answer TriggerHook
@@ -350,7 +352,7 @@ inductive Res where
 /-- before_CONFIGURE: the calls of the workflow are started (again). -/
 def restartCalls (s : State) (k : EnvId) (E : Env) (ev : CEv) : State :=
   if ev = .CONFIGURE then
-    setEnv { s with started := s.started ++ [(k, E.calls)] } k (fun X => { X with pending := X.pending + E.calls })
+    setEnv s k (fun X => { X with pending := X.pending + E.calls, started := X.started + E.calls })
   else s
 
 /-- server.go ControlEnvironment: a failed (or illegal) transition is followed
@@ -571,7 +573,7 @@ def createConfigure (s : State) (k : EnvId) (spec : EnvSpec) (a : Acq) (o : Sett
   | some E =>
     let fails := o.cfgFails.filterMap (fun f => (a.idOf f.1).map (fun t => (t, f.2)))
     let r := applyTrans s { E with state := .DEPLOYED } .CONFIGURE fails
-    let s3 := setEnv { r.1 with started := r.1.started ++ [(k, callCount spec)] } k (fun X => { X with pending := callCount spec })
+    let s3 := setEnv r.1 k (fun X => { X with pending := X.pending + callCount spec, started := X.started + callCount spec })
     if r.2 then (setEnv s3 k (fun X => { X with state := .CONFIGURED }), .okState .CONFIGURED)
     else createFail s3 k a.ids o.late .errConfigure o.hookFails
 
